@@ -109,25 +109,25 @@ Definition ref_step (f : rfile) (op : fop) : rfile * fobs :=
   end.
 
 (* ---- which calls the property speaks about -------------------------------- *)
-(* Both (more than the property asks): seeks to ANY position >= 0 - also past the
-   end of the data, where reads return nothing and iteration stops.  Text:
-   appending writes (position = length); whence 1/2 only with offset 0 (the only
-   relative seeks io.StringIO has); readline/readlines without a size.  Bytes:
-   overwriting writes (past the end a write pads with zeros), relative seeks,
-   readline(limit >= 1), readlines(hint).  readline(0) is left
-   out (`if length:` treats it as "no limit"). *)
+(* Both kinds: every call above at ANY position >= 0 (past the end of the data too:
+   reads return nothing, iteration stops), readline(limit).  readlines(hint > 0)
+   only for bytes: io.StringIO (C implementation) stops once the total EXCEEDS the
+   hint, io.BytesIO (and _pyio) once it reaches it; SpooledStringIO follows the
+   latter, so the call is outside for text.
+   Text: writes are appending (position = length), and the only relative seeks are
+   seek(0, 1) and seek(0, 2) (io.StringIO has no others).  Bytes: overwriting
+   writes (past the end a write pads with zeros) and relative seeks too. *)
 Definition ref_pre (k : fkind) (f : rfile) (op : fop) : bool :=
   match op with
   | Write _ | WriteLines _ =>
       match k with KString => Nat.eqb (rf_pos f) (length (rf_data f)) | KBytes => true end
-  | ReadLine (Some n) => match k with KString => false | KBytes => negb (Nat.eqb n 0) end
-  | ReadLines (S _) => match k with KString => false | KBytes => true end
   | Seek off wh =>
       (wh <=? 2) && (0 <=? seek_target f off wh)%Z &&
       match k with
       | KString => Nat.eqb wh 0 || (off =? 0)%Z
       | KBytes => true
       end
+  | ReadLines (S _) => match k with KString => false | KBytes => true end
   | _ => true
   end.
 
